@@ -765,9 +765,8 @@ class Classifier:
         # (generic instantiation defects F67/F81/F2 have their own signatures)
         return bool(failure.get("fnres")) and "#<" not in s0 and not re.search(r"%(list|iter)\b", s0)
 
-    # ---- unify-recursive-tail: unify binds a type variable from the first element of a recursive
-    # argument and never checks the recursive tail. Signature (syntactic + failure): a generic
-    # function `#<..>` whose header mentions a recursive alias (one defined with `^`).
+    # ---- unify-recursive-tail (F67, the residue left open by e5e2c4b): see below. Precondition: a
+    # generic function `#<..>` whose header mentions a recursive alias, or %list / %iter.
     def sig_unify_cycle(self, src, mods, failure):
         s0 = strip_strings(src)
         rec_aliases = re.findall(r"'([a-z_][A-Za-z0-9_]*)\s*(?:<[^=\n]*>)?\s*=[^\n]*\^", s0)
@@ -775,7 +774,15 @@ class Classifier:
                           for m in re.finditer(r"#<[^{}]*\{", s0))
         if not generic_rec and not re.search(r"%(list|iter)\b", s0):
             return False
-        if not heterogeneous_cons(src):
+        # what is still open after e5e2c4b (unify now follows back-references to BIND, a mismatch is
+        # still not an error): (a) a list literal whose spine does not end in Nil is accepted;
+        # (b) a callback's parameter is not checked against the variable widened by a
+        # heterogeneous list. Anything else about recursive arguments is a recurrence.
+        spines = cons_spines(src)
+        bad_tail = any(heads and tail != "Nil" and not re.match(r"^[a-z~$]", tail) for _, _, heads, tail in spines)
+        hetero = any(len(set(lit_shape(h) for h in heads)) >= 2 for _, _, heads, _ in spines)
+        callback = bool(fn_literal_bodies(src)) or re.search(r"[\[,]\s*&[a-z%]", strip_strings(src)) is not None
+        if not (bad_tail or (hetero and callback)):
             return False
         # the failure depends on the recursive TAIL of a list literal: with every outermost
         # `Cons[h, t]` literal cut to `Cons[h, Nil]` (or to `t`) the program is accepted and passes
